@@ -182,13 +182,19 @@ func modelEval(steps []MStep, root interface{}) []interface{} {
 	return nodes
 }
 
+// functions registered in C07's runs (no failing, yielding ones needed here)
+const orderFuncs = 1<<fID | 1<<fTag | 1<<fCnt | 1<<fFirst | 1<<fAll
+
+var orderCfg = CfgSpec{Present: true, Funcs: orderFuncs}
+
 func orderPath(doc interface{}, trap bool) *PathSpec {
 	if chance(65) {
 		return genModelPath(trap)
 	}
 	// any path, but make sure an object traversal is in it
 	for i := 0; i < 8; i++ {
-		p := genPathFor(doc, 0, trap, 4, 0)
+		// also with trailing functions: an aggregate sees the members in traversal order
+		p := genPathFor(doc, orderFuncs, trap, 4, 2)
 		for _, s := range []string{"*", "..", "?("} {
 			if containsStr(p.Text, s) {
 				return p
@@ -218,6 +224,7 @@ func runC07() *RunResult {
 		p         *PathSpec
 		doc       interface{}
 		solo      string
+		soloLog   string
 		model     string
 		hasMod    bool
 		modelVals []interface{}
@@ -235,11 +242,11 @@ func runC07() *RunResult {
 			k.doc = dg.doc(true)
 		}
 		k.p = orderPath(k.doc, true)
-		pf := soloParse(k.p, CfgSpec{})
+		pf := soloParse(k.p, orderCfg)
 		if pf.Fn == nil {
 			continue
 		}
-		k.solo, _ = soloEval(pf, deepCopy(k.doc), [nFuncs]uint64{}, ref)
+		k.solo, k.soloLog = soloEval(pf, deepCopy(k.doc), [nFuncs]uint64{}, ref)
 		if k.p.Model != nil {
 			k.hasMod = true
 			if r := modelEval(k.p.Model, k.doc); len(r) > 0 {
@@ -250,7 +257,7 @@ func runC07() *RunResult {
 			}
 		}
 		// the function the task will call repeatedly (own tree: the reference keeps its own)
-		k.fn = soloParse(k.p, CfgSpec{})
+		k.fn = soloParse(k.p, orderCfg)
 		ks = append(ks, k)
 		cases = append(cases, fnv(k.p.Text+"|"+canon(k.doc)))
 	}
@@ -292,7 +299,7 @@ func runC07() *RunResult {
 				simrt.SetMapPolicy(pol)
 				var res []interface{}
 				if useRetrieve {
-					res, o.Got = safeRetrieve(k.p.Text, d, nil)
+					res, o.Got = safeRetrieve(k.p.Text, d, cfgArgs(orderCfg))
 				} else {
 					res, o.Got = safeCall(k.fn.Fn, d)
 				}
@@ -300,6 +307,10 @@ func runC07() *RunResult {
 					return
 				}
 				t.judged++
+				if o.Got == k.solo && t.rec.log() != k.soloLog {
+					t.fail("C07:order-differs-between-evaluations", k.p.Text, fmt.Sprintf("%v (map order policy %d)\n  document %s\n  user functions were called in this order %s\n  with ascending maps                       %s", o, pol, clip(canon(k.doc), 400), clip(t.rec.log(), 400), clip(k.soloLog, 400)))
+					return
+				}
 				if o.Got != k.solo {
 					t.fail("C07:order-differs-between-evaluations", k.p.Text, fmt.Sprintf("%v (map order policy %d)\n  document %s\n  got                 %s\n  with ascending maps %s", o, pol, clip(canon(k.doc), 400), clip(o.Got, 400), clip(k.solo, 400)))
 					return
